@@ -5,7 +5,8 @@ HERE = os.path.dirname(os.path.dirname(os.path.abspath(__file__)))
 TB = ("Trusted: Coq 8.16.1 kernel (+coqchk in thorough tier); stdlib axioms only as reported by Print Assumptions in the "
       "evidence; hand-written Gallina model tied to /repo by the correspondence run (Go overlay harness + extracted OCaml "
       "model/driver, ExtrOcamlBasic only); see DESIGN.md 3.6 and the per-property section.")
-CHECKS = {
+CHECKS = {}
+_unused = {
  "C19": dict(cat="proof", ref="DESIGN.md §4 C19",
    text="Theorems over the Gallina model of internal/interval_bst.go for all operation sequences (size/contents = multiset "
         "spec, AVL balance, stored height/max exact, exact queries under pairwise disjointness); the model is compared with "
@@ -15,6 +16,21 @@ CHECKS = {
 }
 NOT_YET = {}
 def main():
+    import glob
+    # per-property entries: props/Cxx/manifest_entry.json {cat, ref, text, tech, [note]} (or {"not_applicable": reason})
+    for f in sorted(glob.glob(os.path.join(HERE, "props", "C*", "manifest_entry.json"))):
+        pid = os.path.basename(os.path.dirname(f))
+        e = json.load(open(f))
+        if "not_applicable" in e:
+            NOT_YET[pid] = e["not_applicable"]
+        else:
+            CHECKS[pid] = e
+    # known_findings.json (root) = concatenation of the per-property files
+    allf = []
+    for f in sorted(glob.glob(os.path.join(HERE, "props", "C*", "known_findings.json"))):
+        allf += json.load(open(f)).get("findings", [])
+    json.dump({"comment": "assembled from props/*/known_findings.json by meta/manifest_src.py; open entries turn a violation with the same signature into a KNOWN-FINDING line, fixed entries suppress nothing; never written at run time",
+               "findings": allf}, open(os.path.join(HERE, "known_findings.json"), "w"), indent=1)
     props = [json.loads(l) for l in open(os.path.join(HERE, "properties.jsonl"))]
     checks, na = [], []
     for p in props:
